@@ -725,3 +725,181 @@ Proof.
       destruct (_ =? 0); [reflexivity|]. destruct (collect _ _ _); reflexivity.
     + reflexivity.
 Qed.
+
+(* --- the walker hands out at most its budget: any message, any start pointer, any fuel --- *)
+Definition handed_ok {A} (rl : Z) (a : acc A) : Prop :=
+  0 <= ac_rl a /\ 0 <= ac_h a /\ ac_rl a + ac_h a <= rl.
+
+Lemma iter_acc_handed {A} (f : Z -> Z -> acc A) :
+  (forall j rl0, 0 <= rl0 -> handed_ok rl0 (f j rl0)) ->
+  forall n i rl, 0 <= rl -> handed_ok rl (iter_acc n i rl f).
+Proof.
+  intros H. induction n as [|n IH]; intros i rl Hr; cbn [iter_acc].
+  - unfold handed_ok. cbn. lia.
+  - cbv zeta. destruct (H i rl Hr) as (H1 & H2 & H3).
+    destruct (IH (i + 1) (ac_rl (f i rl)) H1) as (G1 & G2 & G3).
+    unfold handed_ok. cbn [ac_rl ac_h]. lia.
+Qed.
+
+Lemma deref_then_handed rl x k : charged rl x ->
+  (forall rl1 r, 0 <= rl1 -> handed_ok rl1 (k rl1 r)) -> handed_ok rl (deref_then x k).
+Proof.
+  intros [[H1 H1'] H2] Hk. unfold deref_then. cbv zeta.
+  destruct (Hk (snd x) (fst x) H1) as (G1 & G2 & G3).
+  unfold handed_ok. cbn [ac_rl ac_h]. unfold deref_size.
+  destruct (fst x) as [q| |]; [pose proof (readSize_nonneg q)|..]; lia.
+Qed.
+
+Theorem walk_traversal c fx m dcap pcap : forall fuel rl r, 0 <= rl ->
+  handed_ok rl (walkA c fx m dcap pcap fuel rl r).
+Proof.
+  assert (forall rl, 0 <= rl -> forall t, handed_ok rl (mkAcc (A:=tree) t rl 0 0)) as Hleaf
+    by (intros; unfold handed_ok; cbn; lia).
+  induction fuel as [|f IH]; intros rl r Hr.
+  - destruct r as [p| |]; cbn [walkA]; auto. destruct (negb (p_valid p)); auto.
+  - destruct r as [p| |]; cbn [walkA]; auto.
+    destruct (negb (p_valid p)); auto.
+    destruct (p_kind p); auto.
+    + destruct (collect _ _ _); auto. cbv zeta.
+      match goal with |- context [iter_acc ?n ?i ?rl ?ga] =>
+        pose proof (iter_acc_handed ga) as Hit; specialize (fun H => Hit H n i rl Hr);
+        destruct (iter_acc n i rl ga) as [v rl' d h] end.
+      unfold handed_ok in *. cbn [ac_rl ac_h] in *. apply Hit.
+      intros j rl0 H0. apply deref_then_handed; [apply struct_ptr_charge; assumption|]. intros; apply IH; assumption.
+    + cbv zeta. destruct (p_bit p); [destruct (collect _ _ _); auto|].
+      destruct (p_comp p).
+      { match goal with |- context [iter_acc ?n ?i ?rl ?ga] =>
+          pose proof (iter_acc_handed ga) as Hit; specialize (fun H => Hit H n i rl Hr);
+          destruct (iter_acc n i rl ga) as [v rl' d h] end.
+        unfold handed_ok in *. cbn [ac_rl ac_h] in *. apply Hit. intros j rl0 H0. apply IH. assumption. }
+      destruct (0 <? PointerCount (p_size p)).
+      { match goal with |- context [iter_acc ?n ?i ?rl ?ga] =>
+          pose proof (iter_acc_handed ga) as Hit; specialize (fun H => Hit H n i rl Hr);
+          destruct (iter_acc n i rl ga) as [v rl' d h] end.
+        unfold handed_ok in *. cbn [ac_rl ac_h] in *. apply Hit.
+        intros j rl0 H0. apply deref_then_handed; [apply ptrlist_at_charge; assumption|]. intros; apply IH; assumption. }
+      destruct (_ =? 0); auto. destruct (collect _ _ _); auto.
+Qed.
+
+(* --- number of successful dereferences --- *)
+(* pointer slots of an object: each can be dereferenced once by the walker *)
+Definition slots (p : Ptr) : Z :=
+  if p_valid p then
+    match p_kind p with
+    | KStruct => PointerCount (p_size p)
+    | KList => if p_bit p then 0 else p_len p * PointerCount (p_size p)
+    | KIface => 0
+    end
+  else 0.
+Definition slots_r (r : res Ptr) : Z := match r with Ok p => slots p | _ => 0 end.
+
+(* a well-formed object was charged at least one word per pointer slot *)
+Lemma slots_le_readSize m p : msg_ok m -> wf_ptr m p -> 0 <= slots p /\ 8 * slots p <= readSize p.
+Proof.
+  intros Hm Hw. unfold slots, readSize. destruct (p_valid p) eqn:V.
+  2:{ pose proof (struct_readSize_nonneg p). pose proof (list_readSize_nonneg p).
+      destruct (p_kind p); lia. }
+  destruct (Hw V) as [Hs Ho]. unfold wf_obj in Ho. destruct (p_kind p).
+  - destruct Ho as (Hz & _ & _). unfold struct_readSize. rewrite V. rewrite (totalSize_wf _ Hz).
+    unfold wf_size in Hz. lia.
+  - destruct Ho as (Ho & Hl & Hr). destruct (p_bit p); [pose proof (list_readSize_nonneg p); lia|].
+    destruct Hr as [Hz Hr]. destruct (seg_of_ok m p Hm) as [Hsl _]. unfold maxSegmentSize in Hsl.
+    unfold list_readSize. rewrite V. cbv zeta. rewrite (totalSize_wf _ Hz) in *. unfold wf_size in Hz.
+    destruct (_ =? 0) eqn:E0.
+    + assert (PointerCount (p_size p) = 0) as -> by lia.
+      destruct (times _ _) eqn:Et; [apply times_spec in Et|unfold maxSegmentSize]; lia.
+    + destruct (times _ _) eqn:Et.
+      * apply times_spec in Et. destruct Et as [-> _]. nia.
+      * unfold maxSegmentSize. nia.
+  - lia.
+Qed.
+
+Definition derefs_ok {A} (rl k : Z) (a : acc A) : Prop :=
+  0 <= ac_rl a /\ 0 <= ac_d a /\ 8 * ac_d a + ac_rl a <= rl + 8 * k.
+
+Lemma iter_acc_derefs {A} (f : Z -> Z -> acc A) k : 0 <= k ->
+  forall n i rl,
+  (forall j rl0, i <= j < i + Z.of_nat n -> 0 <= rl0 -> derefs_ok rl0 k (f j rl0)) -> 0 <= rl ->
+  derefs_ok rl (k * Z.of_nat n) (iter_acc n i rl f).
+Proof.
+  intros Hk. induction n as [|n IH]; intros i rl H Hr; cbn [iter_acc].
+  - unfold derefs_ok. cbn [ac_rl ac_d]. change (Z.of_nat 0) with 0. lia.
+  - cbv zeta. destruct (H i rl ltac:(lia) Hr) as (H1 & H2 & H3).
+    destruct (IH (i + 1) (ac_rl (f i rl)) ltac:(intros j rl0 Hj; apply H; lia) H1) as (G1 & G2 & G3).
+    unfold derefs_ok. cbn [ac_rl ac_d]. lia.
+Qed.
+
+Lemma deref_then_derefs m rl x k : msg_ok m -> charged rl x -> res_sat (fst x) (wf_ptr m) ->
+  (forall rl1 r, 0 <= rl1 -> res_sat r (wf_ptr m) -> derefs_ok rl1 (slots_r r) (k rl1 r)) ->
+  derefs_ok rl 1 (deref_then x k).
+Proof.
+  intros Hm [[H1 H1'] H2] Hw Hk. unfold deref_then. cbv zeta.
+  destruct (Hk (snd x) (fst x) H1 Hw) as (G1 & G2 & G3).
+  unfold derefs_ok. cbn [ac_rl ac_d]. unfold deref_count, slots_r in *.
+  destruct (fst x) as [q| |]; try lia.
+  cbn [res_sat] in Hw. pose proof (slots_le_readSize m q Hm Hw). destruct (p_valid q); lia.
+Qed.
+
+Lemma walk_derefs c fx m dcap pcap : msg_ok m -> cfg_strict c = true ->
+  forall fuel rl r, 0 <= rl -> res_sat r (wf_ptr m) ->
+  derefs_ok rl (slots_r r) (walkA c fx m dcap pcap fuel rl r).
+Proof.
+  intros Hm Hc.
+  assert (forall rl k, 0 <= rl -> 0 <= k -> forall t, derefs_ok rl k (mkAcc (A:=tree) t rl 0 0)) as Hleaf
+    by (intros; unfold derefs_ok; cbn [ac_rl ac_d]; lia).
+  induction fuel as [|f IH]; intros rl r Hr Hw.
+  - destruct r as [p| |]; cbn [walkA]; try (apply Hleaf; cbn; lia).
+    pose proof (slots_le_readSize m p Hm Hw) as [Hs _].
+    destruct (negb (p_valid p)); apply Hleaf; cbn; lia.
+  - destruct r as [p| |]; cbn [walkA]; try (apply Hleaf; cbn; lia).
+    cbn [res_sat] in Hw. pose proof (slots_le_readSize m p Hm Hw) as [Hs _]. cbn [slots_r].
+    destruct (p_valid p) eqn:V; cbn [negb]; [|apply Hleaf; lia].
+    destruct (p_kind p) eqn:K; [| |apply Hleaf; lia].
+    + assert (wf_struct m p) as Hws by (split; [assumption|intros _; assumption]).
+      destruct (collect _ _ _); try (apply Hleaf; lia). cbv zeta.
+      match goal with |- context [iter_acc ?n ?i ?rl ?ga] =>
+        pose proof (iter_acc_derefs ga 1 ltac:(lia) n i rl) as Hit;
+        destruct (iter_acc n i rl ga) as [v rl' d h] end.
+      assert (0 <= Z.of_nat (cap_count (PointerCount (p_size p)) pcap) <= slots p) as Hn.
+      { unfold slots in *. rewrite V, K in *. unfold cap_count. lia. }
+      unfold derefs_ok in *. cbn [ac_rl ac_d] in *.
+      enough (0 <= rl' /\ 0 <= d /\ 8 * d + rl' <= rl + 8 * (1 * Z.of_nat (cap_count (PointerCount (p_size p)) pcap))) by lia.
+      apply Hit; [|assumption]. intros j rl0 Hj H0.
+      apply (deref_then_derefs m); try assumption.
+      * apply struct_ptr_charge. assumption.
+      * eapply res_sat_weaken; [apply struct_ptr_safe; auto; lia|auto].
+    + assert (wf_list m p) as Hwl by (split; [assumption|intros _; assumption]).
+      assert (forall j, 0 <= j < Z.of_nat (cap_count (p_len p) pcap) -> 0 <= j < list_len p) as Hidx.
+      { intros j Hj. apply cap_count_le in Hj. unfold list_len. rewrite V. assumption. }
+      destruct (wf_list_inv m p Hwl V) as (_ & _ & Hl & Hr').
+      cbv zeta. destruct (p_bit p) eqn:Hb; [destruct (collect _ _ _); apply Hleaf; lia|].
+      destruct Hr' as [Hz _]. unfold wf_size in Hz.
+      assert (slots p = p_len p * PointerCount (p_size p)) as Hsl by (unfold slots; rewrite V, K, Hb; reflexivity).
+      assert (0 <= Z.of_nat (cap_count (p_len p) pcap) <= p_len p) as Hn by (unfold cap_count; lia).
+      destruct (p_comp p).
+      { match goal with |- context [iter_acc ?n ?i ?rl ?ga] =>
+          pose proof (iter_acc_derefs ga (PointerCount (p_size p)) ltac:(lia) n i rl) as Hit;
+          destruct (iter_acc n i rl ga) as [v rl' d h] end.
+        unfold derefs_ok in *. cbn [ac_rl ac_d] in *.
+        enough (0 <= rl' /\ 0 <= d /\
+                8 * d + rl' <= rl + 8 * (PointerCount (p_size p) * Z.of_nat (cap_count (p_len p) pcap))) by nia.
+        apply Hit; [|assumption]. intros j rl0 Hj H0.
+        pose proof (list_struct_safe (fx_depth fx) m p j Hm Hwl (Hidx j Hj)) as Hq.
+        assert (slots_r (list_struct (fx_depth fx) p j) <= PointerCount (p_size p)) as Hsq.
+        { unfold list_struct. destruct (_ || _); [cbn; lia|]. destruct (p_bit p); [cbn; lia|].
+          destruct (element _ _ _); cbn; lia. }
+        assert (res_sat (list_struct (fx_depth fx) p j) (wf_ptr m)) as Hq'
+          by (eapply res_sat_weaken; [exact Hq|intros a [Ha _]; exact Ha]).
+        specialize (IH rl0 _ H0 Hq'). lia. }
+      destruct (0 <? PointerCount (p_size p)) eqn:Hpc.
+      { match goal with |- context [iter_acc ?n ?i ?rl ?ga] =>
+          pose proof (iter_acc_derefs ga 1 ltac:(lia) n i rl) as Hit;
+          destruct (iter_acc n i rl ga) as [v rl' d h] end.
+        unfold derefs_ok in *. cbn [ac_rl ac_d] in *.
+        enough (0 <= rl' /\ 0 <= d /\ 8 * d + rl' <= rl + 8 * (1 * Z.of_nat (cap_count (p_len p) pcap))) by nia.
+        apply Hit; [|assumption]. intros j rl0 Hj H0.
+        apply (deref_then_derefs m); try assumption.
+        * apply ptrlist_at_charge. assumption.
+        * eapply res_sat_weaken; [apply ptrlist_at_safe; auto|auto]. }
+      destruct (_ =? 0); [apply Hleaf; lia|]. destruct (collect _ _ _); apply Hleaf; lia.
+Qed.
